@@ -883,17 +883,32 @@ func first(a, _ []byte) []byte { return a }
 
 //@ spec stackOK(q) = forall(j, 0, len(q), q[j].pointer != nil && okRef(q[j]) && liveChild(q[j]))
 
-//@ func {all,backward}$1
+//@ func all$1
 //@   opt casts on
 //@   requires liveRef(root) && HeapOKN() && LinkedLive()
 //@   ensures[pure] frame()
 //@   loop 1 (q)
 //@     invariant stackOK(q)
 //@   loop 2 (i)
-//@     invariant stackOK(q) && 0 - 1 <= i && i <= 4
+//@     invariant stackOK(q) && 0 - 1 <= i && i <= 3
 //@   loop 3 (i)
-//@     invariant stackOK(q) && 0 - 1 <= i && i <= 16
+//@     invariant stackOK(q) && 0 - 1 <= i && i <= 15
 //@   loop 4 (i)
-//@     invariant stackOK(q) && 0 - 1 <= i && i <= 256
+//@     invariant stackOK(q) && 0 - 1 <= i && i <= 255
 //@   loop 5 (i)
-//@     invariant stackOK(q) && 0 - 1 <= i && i <= 256
+//@     invariant stackOK(q) && 0 - 1 <= i && i <= 255
+
+//@ func backward$1
+//@   opt casts on
+//@   requires liveRef(root) && HeapOKN() && LinkedLive()
+//@   ensures[pure] frame()
+//@   loop 1 (q)
+//@     invariant stackOK(q)
+//@   loop 2 (i)
+//@     invariant stackOK(q) && 0 <= i && i <= 4
+//@   loop 3 (i)
+//@     invariant stackOK(q) && 0 <= i && i <= 16
+//@   loop 4 (i)
+//@     invariant stackOK(q) && 0 <= i && i <= 256
+//@   loop 5 (i)
+//@     invariant stackOK(q) && 0 <= i && i <= 256
